@@ -376,6 +376,30 @@ def install(w):
             return Z(ex.fresh("no_such_call", ex.S.Py))
         return Z(ex.ctx.ghost_calls[i][2])
 
+    @b("is_param_record")
+    def _is_param_record(ex, args, kw, e, env):
+        return Z(ex.S.rec("Param")(ex.to_py(args[0])))
+
+    @b("param_name")
+    def _param_name(ex, args, kw, e, env):
+        return Z(ex.S.acc("Param", "name")(ex.to_py(args[0])))
+
+    @b("param_default")
+    def _param_default(ex, args, kw, e, env):
+        return Z(ex.S.acc("Param", "default")(ex.to_py(args[0])))
+
+    @b("is_empty_marker")
+    def _is_empty_marker(ex, args, kw, e, env):
+        return Z(ex.to_py(args[0]) == ex.w.opaque("inspect.Parameter.empty"))
+
+    @b("is_complex")
+    def _is_complex(ex, args, kw, e, env):
+        return Z(ex.w.ufun("is_complex", ex.S.Py, z3.BoolSort())(ex.to_py(args[0])))
+
+    @b("params_of")
+    def _params_of(ex, args, kw, e, env):
+        return Z(ex.w.ufun("params_of", ex.S.Py, ex.S.PyList)(ex.to_py(args[0])))
+
     @b("uf")
     def _uf(ex, args, kw, e, env):
         """uf("name", x, ...) — uninterpreted Py-valued function (trusted library symbol)."""
@@ -402,6 +426,10 @@ def install(w):
     @b("remove_first")
     def _rmf(ex, args, kw, e, env):
         return Z(ex.S.remove_first(ex.to_list(args[0]), ex.to_py(args[1])))
+
+    @b("list_contains")
+    def _list_contains(ex, args, kw, e, env):
+        return Z(ex.S.contains(ex.to_list(args[0]), ex.to_py(args[1])))
 
     @b("cons")
     def _cons(ex, args, kw, e, env):
@@ -534,6 +562,32 @@ def install(w):
             raise Unsupported("md5 of a non-bytes value")
         return Z(f(d.t))
     w.obj_methods[("md5", "hexdigest")] = md5_hexdigest
+
+    def inspect_signature(ex, args, kw, e, env):
+        """TRUSTED model of inspect.signature(f).parameters: the declared parameters in order, each
+        a Param(name, default) record whose default is the EMPTY marker when none is declared."""
+        S = ex.S
+        t = ex.to_py(args[0])
+        f = ex.w.ufun("params_of", S.Py, S.PyList)
+        pl = f(t)
+        isp = ex.w.specs.get("all_params")
+        if isp is not None:
+            ex.assume(isp.f(pl))
+        o = Obj("signature", {"parameters": Obj("paramdict", {"_values": Z(pl, fresh="shallow",
+                                                                       origin="signature.parameters")})})
+        return o
+    L["inspect.signature"] = inspect_signature
+    w.obj_methods[("paramdict", "values")] = lambda ex, o, a, k, l: o.attrs["_values"]
+
+    def typing_get_type_hints(ex, args, kw, e, env):
+        S = ex.S
+        m = ex.new_map()
+        t = ex.to_py(args[0])
+        m.attrs["dom"] = ex.w.ufun("type_hints_dom", S.Py, z3.ArraySort(S.Py, z3.BoolSort()))(t)
+        m.attrs["val"] = ex.w.ufun("type_hints_val", S.Py, z3.ArraySort(S.Py, S.Py))(t)
+        m.attrs["n"] = ex.w.ufun("type_hints_n", S.Py, z3.IntSort())(t)
+        return m
+    L["typing.get_type_hints"] = typing_get_type_hints
 
     def logging_getLogger(ex, args, kw, e, env):
         return Obj("logger", {})
